@@ -105,7 +105,7 @@ Definition ub_scalar (e : uenc) (s : scalar) : uenc * bool :=
   | SNum KInt32 z => ub_onint32 e z
   | SNum KInt64 z => ub_onint64 e z
   | SNum KInt z => ub_onint e z true
-  | SNum KByte z => uw e [mC; z]
+  | SNum KByte z => if z >? 127 then ub_uint8 e z true else uw e [mC; z]   (* char holds 0..127 only *)
   | SNum KUint8 z => ub_uint8 e z true
   | SNum (KUint16 | KUint32 | KUint64 | KUint) z => ub_uint64 e z (uint_type z) true
   | SNum KFloat32 z => ub_float32 e z true
